@@ -72,7 +72,59 @@ def cases(tier, seed):
             for via in ("dataframe", "parquet", "csv"):
                 for n in (1, 5):
                     out.append({"family": "column-order", "order": order, "names": names, "via": via, "n": n})
+    # tables with no molecules left (an over-strict filter, Molecules.empty, a cleared frame) keep their feature columns
+    # through every reader / writer pair (wave 10 seed C13j)
+    for origin in ("filtered", "cleared-frame", "subset-empty"):
+        for feats in (True, False):
+            for via in ("dataframe", "parquet", "to_parquet", "file:.parquet", "csv", "to_csv", "file:.csv"):
+                out.append({"family": "zero-rows", "origin": origin, "features": feats, "via": via})
     return out
+
+
+def _zero_rows(case):
+    import polars as pl
+
+    from acryo import Molecules
+
+    m = _table({"n": 3, "angle": 3, "axis": 1, "pos": "frac", "features": case["features"]})
+    full = m.to_dataframe()
+    want_cols = full.columns
+    if case["origin"] == "filtered":
+        e = m.filter(pl.col("z") > 1e9)
+    elif case["origin"] == "cleared-frame":
+        e = Molecules.from_dataframe(full.clear())
+    else:
+        e = m.subset([])
+    via = case["via"]
+    viol = []
+    sig = lambda what: f"{ID}|zero-rows|{what}|{via}|origin={case['origin']}"  # noqa
+    tmp = tempfile.mkdtemp(prefix="vfc13-", dir="/dev/shm" if os.path.isdir("/dev/shm") else None)
+    try:
+        if e.count() != 0 or e.to_dataframe().columns != want_cols:
+            viol.append((sig("source"), f"empty selection of a table with columns {want_cols} has {e.count()} rows and columns {e.to_dataframe().columns}"))
+        exact = True
+        if via == "dataframe":
+            r = Molecules.from_dataframe(e.to_dataframe())
+        elif via == "parquet":
+            f = os.path.join(tmp, "r.parquet"); full.clear().write_parquet(f); r = Molecules.from_parquet(f)
+        elif via == "to_parquet":
+            f = os.path.join(tmp, "m.pq"); e.to_parquet(f); r = Molecules.from_parquet(f)
+        elif via == "file:.parquet":
+            f = os.path.join(tmp, "m.parquet"); e.to_file(f); r = Molecules.from_file(f)
+        elif via == "csv":
+            f = os.path.join(tmp, "r.csv"); full.clear().write_csv(f); r = Molecules.from_csv(f); exact = False
+        elif via == "to_csv":
+            f = os.path.join(tmp, "m.csv"); e.to_csv(f); r = Molecules.from_csv(f); exact = False
+        else:
+            f = os.path.join(tmp, "m.csv"); e.to_file(f); r = Molecules.from_file(f); exact = False
+        got = r.to_dataframe()
+        if r.count() != 0 or got.columns != want_cols:
+            viol.append((sig("columns"), f"reloaded empty table has {r.count()} rows and columns {got.columns}, expected 0 rows and {want_cols}"))
+        elif exact and dict(got.schema) != dict(full.schema):
+            viol.append((sig("dtypes"), f"reloaded empty table has schema {dict(got.schema)}, expected {dict(full.schema)}"))
+    finally:
+        shutil.rmtree(tmp, ignore_errors=True)
+    return {"nontrivial": case["features"], "outcome": f"zero-rows|{'viol' if viol else 'ok'}", "viol": viol}
 
 
 def _column_order(case):
@@ -163,6 +215,8 @@ def run_case(case):
 
     if case.get("family") == "column-order":
         return _column_order(case)
+    if case.get("family") == "zero-rows":
+        return _zero_rows(case)
     m = _table(case)
     path = case["path"]
     tmp = tempfile.mkdtemp(prefix="vfc13-", dir="/dev/shm" if os.path.isdir("/dev/shm") else None)
